@@ -361,6 +361,13 @@ def cases(rng, ctx):
             sw.append({'kind': 'sw_pairs', 'o': bo, 'w': 25})
         for k in range(4):
             sw.append({'kind': 'sw_edate', 'seed': ctx.get('seed', 0) * 1000 + k, 'n': 15000 * scale})
+    # the same questions while the PROCESS sits in another time zone (naive date-times must not be read in it): a seeded
+    # sample of the cases above, in a zone east of UTC with daylight saving, one west of it, and a fixed offset
+    plain = [c for c in out if c['kind'] in ('ymd', 'serial', 'pair', 'wtype', 'edate', 'hms', 'iso', 'shorty')]
+    for c in rng.sample(plain, min(len(plain), (3000 if thorough else 400) * scale)):
+        c2 = dict(c)
+        c2['tz'] = rng.choice(TZS)
+        add(c2)
     for c in sw:
         add(c)
         _SWEEPS.append(c)
@@ -517,7 +524,29 @@ def _parse(formula, variables):
     return p.parse(formula)
 
 
+TZS = ['CET-1CEST,M3.5.0,M10.5.0/3', 'EST5EDT,M3.2.0,M11.1.0', 'XYZ-9', 'NPT-5:45']
+
+
 def impl(c):
+    import contextlib
+    import time
+    tz = c.get('tz')
+    if tz is None:
+        return _impl(c)
+    old = os.environ.get('TZ')
+    os.environ['TZ'] = tz
+    time.tzset()
+    try:
+        return _impl(c)
+    finally:
+        if old is None:
+            os.environ.pop('TZ', None)
+        else:
+            os.environ['TZ'] = old
+        time.tzset()
+
+
+def _impl(c):
     k = c['kind']
     if k == 'ymd':
         if c.get('via') == 'parse':
